@@ -571,7 +571,8 @@ func extractHavingAggregates(having string, aggs map[string]aggregator.Aggregate
 	type span struct{ start, closeParen int }
 	var spans []span
 	var calls []string
-	for _, m := range pattern.FindAllStringSubmatchIndex(having, -1) {
+	// search with literal / quoted-identifier content blanked (same length): 'count(*)' is text
+	for _, m := range pattern.FindAllStringSubmatchIndex(maskQuoted(having), -1) {
 		nm := strings.ToLower(having[m[2]:m[3]])
 		fn, ok := functions.Get(nm)
 		if !ok || fn.GetType() != functions.TypeAggregation {
